@@ -4,6 +4,7 @@ package main
 import (
 	"fmt"
 	"os"
+	"strings"
 
 	"verif/internal/core"
 	"verif/internal/schedsim"
@@ -17,26 +18,35 @@ func main() {
 		os.Exit(2)
 	}
 	defer b.Close()
-	g := &schedsim.Graph{N: 3, Edges: [][]int{{0, 1, 1}, {0, 0, 1}, {0, 1, 0}}}
-	for _, strat := range []string{"random", "winpre", "sticky50", "pct2"} {
-		hits := 0
-		for batch := 0; batch < 5; batch++ {
-			var units []schedsim.Unit
-			for k := 0; k < 12; k++ {
-				r := core.Sub(1, "exp", strat, batch, k)
-				pl := schedsim.RandomPlan(r, 0)
-				pl.Strategy = strat
-				units = append(units, schedsim.Unit{Project: g.Project(), Backend: "native", Plan: pl, KeepGen: true, Tools: "stub"})
-			}
-			outs := schedsim.RunBatch(b, units, func(i int, rr *schedsim.RunResult, k int) []schedsim.Issue {
-				return schedsim.UnitJudgeC15(g)(&units[i], rr, k)
-			}, nil)
-			for _, o := range outs {
-				if len(o.Issues) > 0 {
-					hits++
-				}
-			}
+	p := schedsim.Project{Dir: "q", Entry: "main.fer", Files: map[string]string{}}
+	filler := strings.Repeat("fn Pad%d() -> i32 {\n    let a: i32 = 1;\n    return a + 2;\n}\n", 1)
+	for i := 1; i <= 2; i++ {
+		var b strings.Builder
+		for k := 0; k < 20*i; k++ {
+			fmt.Fprintf(&b, filler, k)
 		}
-		fmt.Println(strat, hits, "of 60")
+		fmt.Fprintf(&b, "fn Run() -> i32 {\n    let a := ;\n    return %d;\n}\n", i)
+		p.Files[fmt.Sprintf("m%d.fer", i)] = b.String()
 	}
+	p.Files["main.fer"] = "import \"std/io\";\nimport \"q/m1\";\nimport \"q/m2\";\nfn main() {\n    io::Println(m1::Run() + m2::Run());\n}\n"
+	counts := map[int]int{}
+	stalls := 0
+	for batch := 0; batch < 8; batch++ {
+		var units []schedsim.Unit
+		for k := 0; k < 12; k++ {
+			r := core.Sub(1, "exp", batch, k)
+			pl := schedsim.RandomPlan(r, 0)
+			pl.Strategy = core.Pick(r, []string{"random", "sticky50"})
+			pl.Fine = true
+			pl.FineProb = core.Pick(r, []int{1, 1, 2, 4})
+			units = append(units, schedsim.Unit{Project: p, Backend: "native", Plan: pl, KeepGen: true, Tools: "stub"})
+		}
+		schedsim.RunBatch(b, units, func(i int, rr *schedsim.RunResult, k int) []schedsim.Issue {
+			n := strings.Count(rr.Results[k].Stderr, "error")
+			counts[n]++
+			stalls += rr.Results[k].Sim.Probes["window-stall"]
+			return nil
+		}, nil)
+	}
+	fmt.Println("error-line counts:", counts, "window stalls:", stalls)
 }
